@@ -6,6 +6,7 @@ import (
 	"verif/engines/hostile"
 	"verif/engines/pipe"
 	"verif/engines/pull"
+	"verif/engines/reuse"
 	"verif/simkit"
 )
 
@@ -74,5 +75,14 @@ func init() {
 			"real": {"json/ubjson/cborl Parser (ParseReader, io.Copy)", "json/ubjson/cborl Visitor (encoders)"},
 			"stub": {"io.Reader (simkit.Reader)", "io.Writer (simkit.Writer)", "pass-through contract tap between parser and encoder"}},
 		Assumptions: []string{"trusted base: independent writers and reference readers (encoding/json token stream; hand-written CBOR and UBJSON readers), cross-checked on every run", "value relation of DESIGN Appendix C"},
+	}
+	registry["C17"] = &propCfg{
+		Engine: reuse.Engine{}, EngineName: "reuse", Level: "exploration",
+		QuickRuns: 30000, ThoroughRuns: 3000000, QuickCapS: 60, ThoroughCapS: 900,
+		Rule: "one run = one long-lived instance of a drawn kind (json/ubjson/cborl encoder incl. extended events; push parser via Write under per-document chunk schedules; Parser.Parse/ParseString called repeatedly; byte and reader pull decoders; fold Iterator; Unfolder with SetTarget per document, optional Reset and key cache) processing a seeded history of 1-6 complete documents and then a probe; evaluations = histories executed; distinct by (kind, history, schedules, probe); every history is non-trivial (>= 1 prior document)",
+		Components: map[string][]string{
+			"real": {"json/ubjson/cborl Visitor", "json/ubjson/cborl Parser", "json/ubjson/cborl Decoder", "gotype.Iterator", "gotype.Unfolder"},
+			"stub": {"io.Writer (simkit.Writer)", "io.Reader (simkit.Reader)", "downstream visitor (simkit.Tap)"}},
+		Assumptions: []string{"oracle: the same probe on a newly created instance; stack depths through the verif-tag accessors", "a history document the instance refuses ends the scenario (it was not completely processed)"},
 	}
 }
